@@ -308,3 +308,62 @@ Proof.
   destruct w as [[w1 w2] w3], pt as [[p1 p2] p3], a as [[a1 a2] a3], x as [[x1 x2] x3].
   unfold dot in *. rs. lra.
 Qed.
+
+(* ------------------------------------------------------------------------ *)
+(* the recorded sides do not matter                                          *)
+(* ------------------------------------------------------------------------ *)
+(* rec = w / ((p - q).w) is unchanged when w is replaced by -w: whatever the
+   "side" entries say, the reciprocal vector of a pair points from the
+   second-listed plane to the first-listed one.  (This is why replacing the
+   test "side_1 == 1" of the code by "side_1 == -1" changes nothing.) *)
+Lemma rec_vector_flip (d n : rvec) :
+  let w := rescale RS (sneg RS (s1 RS)) n in
+  dot d w = - dot d n /\
+  (dot d n <> 0 -> rescale RS (1 / dot d w) w = rescale RS (1 / dot d n) n).
+Proof.
+  destruct d as [[d1 d2] d3], n as [[n1 n2] n3]. cbv zeta. unfold dot. rs. split; [ring|].
+  intros H. f_equal; [f_equal|]; field; (split; [exact H|]);
+    intros E; apply H; lra.
+Qed.
+
+Lemma rec_pair_sides (P Q Q' : rplane) (s s' t t' : Z) (rest rest' : list sfc) :
+  fst Q = fst Q' ->
+  square_rec_loop RS rest = square_rec_loop RS rest' ->
+  square_rec_loop RS ((P, s) :: (Q, t) :: rest) = square_rec_loop RS ((P, s') :: (Q', t') :: rest').
+Proof.
+  intros HQ Hrest. rewrite !square_rec_loop_pair, Hrest.
+  unfold spacing, outward, spoint, snormal. cbn [fst snd]. rewrite HQ.
+  destruct P as [p n]. cbn [fst snd].
+  set (d := vdiff RS p (fst Q')).
+  destruct (rec_vector_flip d n) as [Hneg Hvec]. cbv zeta in Hneg, Hvec.
+  destruct (s =? 1)%Z, (s' =? 1)%Z; try reflexivity.
+  - destruct (Req_EM_T (dot d n) 0) as [E | E].
+    + rewrite Hneg, E, Ropp_0, !pydiv_zero. reflexivity.
+    + rewrite !pydiv_ok by (try rewrite Hneg; lra). cbn [bind]. now rewrite (Hvec E).
+  - destruct (Req_EM_T (dot d n) 0) as [E | E].
+    + rewrite Hneg, E, Ropp_0, !pydiv_zero. reflexivity.
+    + rewrite !pydiv_ok by (try rewrite Hneg; lra). cbn [bind]. now rewrite (Hvec E).
+Qed.
+
+Lemma square_rec_loop_sides (n : nat) : forall l l' : list sfc,
+  (List.length l <= n)%nat -> map fst l = map fst l' ->
+  square_rec_loop RS l = square_rec_loop RS l'.
+Proof.
+  induction n as [|n IH]; intros l l' Hn Hm.
+  - destruct l; [|cbn in Hn; lia]. destruct l'; [reflexivity|discriminate].
+  - destruct l as [|[[p nn] s] [|[[q m] t] rest]];
+      destruct l' as [|[[p' nn'] s'] [|[[q' m'] t'] rest']];
+      try discriminate Hm; try reflexivity.
+    cbn [map fst] in Hm. injection Hm as -> -> -> -> Hm.
+    apply rec_pair_sides; [reflexivity|]. apply IH; [cbn in Hn; lia|exact Hm].
+Qed.
+
+(* same planes, any sides: same reciprocal vectors, base vectors and errors *)
+Theorem square_sides_irrelevant (l l' : list sfc) :
+  map fst l = map fst l' -> squareLatticeBaseVectors RS l = squareLatticeBaseVectors RS l'.
+Proof.
+  intros H. unfold squareLatticeBaseVectors, squareLatticeReciprocalVecs. cbv zeta.
+  assert (Hl : List.length l = List.length l') by (rewrite <- (map_length fst l), H; apply map_length).
+  rewrite Hl, (square_rec_loop_sides (List.length l) l l' (le_n _) H).
+  reflexivity.
+Qed.
